@@ -400,6 +400,12 @@ def specNum (tgt : Ty) (x : Val) (r : Res) : Bool :=
     | .bool, .b v => r.err != .ok || r.val == .b v
     | _, _ => true
 
+/-- clause (b) applies to a string: a canonical decimal numeral whose value lies in the must-succeed range -/
+def mustStr (signedTarget : Bool) (mlo mhi : Int) (w : String) : Bool :=
+  canonicalInt signedTarget w && (match intSyntax w with
+    | some z => decide (mlo ≤ z ∧ z ≤ mhi)
+    | none => false)
+
 /-- The property for a string source `w`: the numeric meaning of a string is given by the decimal grammar. -/
 def specStr (tgt : Ty) (w : String) (r : Res) : Bool :=
   match tgt.range, tgt.must, tgt.fmt with
@@ -409,9 +415,7 @@ def specStr (tgt : Ty) (w : String) (r : Res) : Bool :=
         | none => match decimalRat w with      -- e.g. "1e2": not demanded, but not wrong either
           | some (s, n, d) => r.val == .i (rhaRat s n d) && decide (lo ≤ rhaRat s n d ∧ rhaRat s n d ≤ hi)
           | none => false)) &&
-    (!(canonicalInt (isSigned tgt) w && (match intSyntax w with
-        | some z => decide (mlo ≤ z ∧ z ≤ mhi)
-        | none => false)) || r.err == .ok)
+    (!mustStr (isSigned tgt) mlo mhi w || r.err == .ok)
   | _, _, some f =>
     match decimalRat w with
     | some (s, n, d) =>
